@@ -101,6 +101,8 @@ type foundViolation struct {
 	ReplayPath string    `json:"replay"`
 	OrigSteps  int       `json:"orig_steps"`
 	MinSteps   int       `json:"min_steps"`
+	RunIndex   int       `json:"run_index"`   // index of the failing run in the batch
+	WorkerFrom int       `json:"worker_from"` // first run index executed by the same worker process
 }
 
 // ReplayFile is what a violation is reported as.
@@ -112,6 +114,10 @@ type ReplayFile struct {
 	LogTail   []string  `json:"log_tail"`
 	OrigSteps int       `json:"orig_steps"`
 	Note      string    `json:"note"`
+	// Prelude: plans executed first, in the same process. Present only when the violation
+	// depends on process-global state that earlier runs of the same worker process left
+	// behind (a hidden cache, a package-level variable): the plan alone does not show it.
+	Prelude []*Plan `json:"prelude,omitempty"`
 }
 
 // executeSafe runs the engine and turns an engine/harness panic into a marker violation of
@@ -323,7 +329,7 @@ func RunWorker(o *Options) int {
 				fmt.Fprintln(os.Stderr, "cannot write replay:", err)
 				return 2
 			}
-			res.Violations = append(res.Violations, foundViolation{V: v, ReplayPath: path, OrigSteps: len(plan.Steps), MinSteps: len(min.Steps)})
+			res.Violations = append(res.Violations, foundViolation{V: v, ReplayPath: path, OrigSteps: len(plan.Steps), MinSteps: len(min.Steps), RunIndex: i, WorkerFrom: o.From})
 		}
 	}
 	for k := range sigs {
@@ -365,6 +371,9 @@ func RunReplay(o *Options) int {
 	attempts := c.ReplayAttempts
 	if attempts < 1 {
 		attempts = 1
+	}
+	for _, pp := range rf.Prelude {
+		executeSafe(c, pp, false)
 	}
 	var run *Run
 	for a := 0; a < attempts; a++ {
@@ -618,6 +627,16 @@ func RunParent(o *Options) int {
 		cmd.Env = append(os.Environ(), "POLYSIM_CHILD=1")
 		out, _ := cmd.CombinedOutput()
 		code := cmd.ProcessState.ExitCode()
+		if code == 0 {
+			// The plan alone does not show it in a fresh process: the violation may depend on
+			// process-global state left by the runs the worker executed before it. Rebuild
+			// those runs (generation is deterministic) as a prelude, shortest suffix first.
+			if p2, n := preludeReplay(o, c, self, fv); p2 != "" {
+				fv.ReplayPath = p2
+				code = 1
+				fmt.Printf("  note: key=%s depends on process state left by earlier runs of the same process; the replay file executes %d earlier run(s) first\n", fv.V.Key, n)
+			}
+		}
 		if code != 1 {
 			fmt.Printf("polysim: violation %s/%s did not replay in a fresh process (exit %d) -> harness trouble\n%s\n", fv.V.Property, fv.V.Key, code, out)
 			return 2
@@ -763,4 +782,50 @@ func firstLine(s string) string {
 		return s[:i]
 	}
 	return s
+}
+
+// preludeReplay builds and verifies (in fresh processes) a replay file that first executes
+// earlier runs of the failing run's worker process; it returns the file's path and the number
+// of earlier runs kept, or "" when no such sequence shows the violation.
+func preludeReplay(o *Options, c *Check, self string, fv foundViolation) (string, int) {
+	gen := func(i int) *Plan {
+		seed := Derive(o.Seed, "run:"+c.ID, uint64(i))
+		pl := c.Generate(NewRNG(seed), i, o.Tier)
+		pl.Property = c.ID
+		if pl.Seed == 0 {
+			pl.Seed = seed
+		}
+		return pl
+	}
+	main := gen(fv.RunIndex)
+	avail := fv.RunIndex - fv.WorkerFrom
+	if avail <= 0 {
+		return "", 0
+	}
+	var tries []int
+	for k := 1; k < avail; k *= 2 {
+		tries = append(tries, k)
+	}
+	tries = append(tries, avail)
+	for _, k := range tries {
+		rf := &ReplayFile{Property: fv.V.Property, Violation: fv.V, Plan: main, OrigSteps: len(main.Steps),
+			Note: "replay: ./check " + c.ID + " replay <this file> (executes the prelude runs first, in one process)"}
+		for i := fv.RunIndex - k; i < fv.RunIndex; i++ {
+			rf.Prelude = append(rf.Prelude, gen(i))
+		}
+		os.MkdirAll(replayDir(o), 0o755)
+		path := filepath.Join(replayDir(o), fmt.Sprintf("%s-%d-%s-with-prelude.json", c.ID, main.Seed, sanitize(fv.V.Key)))
+		b, _ := json.MarshalIndent(rf, "", " ")
+		if os.WriteFile(path, b, 0o644) != nil {
+			return "", 0
+		}
+		cmd := exec.Command(self, "-test.run=^TestSim$", "-test.timeout=0", "-prop", c.ID, "-replay", path, "-verifdir", o.VerifDir)
+		cmd.Env = append(os.Environ(), "POLYSIM_CHILD=1")
+		cmd.CombinedOutput()
+		if cmd.ProcessState != nil && cmd.ProcessState.ExitCode() == 1 {
+			return path, k
+		}
+		os.Remove(path)
+	}
+	return "", 0
 }
